@@ -22,10 +22,10 @@ CLAUSES = {"roundtrip", "coherence", "monotone", "vector"}
 def bounds(tier):
     if tier == "quick":
         return {"max_pos": 3, "max_neg": 3, "easy": [[0, 0], [2, 0], [0, 3], [1, 2]],
-                "grids": ["irregular", "dyadic", "int", "mixed"], "targets": "quarter grid + out-of-range + off-grid",
+                "grids": ["irregular", "dyadic", "int", "mixed", "uint"], "targets": "quarter grid + out-of-range + off-grid",
                 "methods": tc.METHODS, "metrics": tc.METRICS}
     return {"max_pos": 4, "max_neg": 4, "easy": [[a, b] for a in range(4) for b in range(4)],
-            "grids": ["irregular", "dyadic", "int", "negated", "ulp", "mixed", "float32"],
+            "grids": ["irregular", "dyadic", "int", "negated", "ulp", "mixed", "float32", "uint"],
             "targets": "quarter grid + out-of-range + off-grid", "methods": tc.METHODS, "metrics": tc.METRICS}
 
 
